@@ -142,6 +142,12 @@ def run(rep):
     # value verdicts in two orders (one process each)
     pairs, _ = stvalues.battery(g, rng, foreign_literals=12 if quick else 60)
     base = stvalues.run_battery(pairs)
+    n_again = 0
+    for (c_, v_), a in zip(pairs, base):
+        if len(a) > 4 and a[4] != a[0]:
+            n_again += 1
+            if n_again <= 3:
+                rep.violation('%s(%s): %s for one instance, %s for the next instance given the same value' % (c_, v_, a[0], a[4]), {'class': c_, 'value': v_, 'first': a[0], 'second': a[4]})
     perm = list(range(len(pairs)))
     rng.shuffle(perm)
     rev = list(reversed(range(len(pairs))))
